@@ -192,6 +192,19 @@ pub fn gen_arrangement(src: &mut Src) -> Arrangement {
     for f in files.iter_mut() {
         f.body = absolutise(&f.body, src);
     }
+    // more appended draws: state that crosses a file boundary — an included file may end in an
+    // annotation line (it then belongs to the statement after the include site) or in a pragma
+    for (i, f) in files.iter_mut().enumerate() {
+        if f.has_syntax_fault {
+            continue;
+        }
+        match src.below(8) {
+            1 => f.body.push_str(&format!("@tail{i} of file\n")),
+            2 => f.body.push_str("pragma end of file\n"),
+            3 => f.body = format!("@head{i}\n{}", f.body),
+            _ => {}
+        }
+    }
     Arrangement { n_dirs, files, main, search, env, entry, decoy_stdgates }
 }
 
@@ -591,7 +604,7 @@ pub fn replay_arrangement(prefix: &str, v: &serde_json::Value) -> Result<Vec<Fai
 }
 
 pub fn run_c18(ctx: &RunCtx) {
-    ctx.set_rule("file-system arrangements: 1-3 search directories, 1-4 include files with distinguishable contents (each copy declares a marker variable named after its file and directory), present in none/one/several directories, nested includes (chains up to 4 files), relative paths and absolute paths of one particular copy (existing or not), missing files, includes below global scope, decoy stdgates.inc; search list given / absent with QASM3_PATH set or unset; three entry points. oracle (differential): analysis of main+files equals the analysis of the textually inlined program (reference resolution rule): graph, symbols, diagnostic kinds; files read = reference resolution in order; diagnostics inside an included file are tagged with its canonical path; FileNotFound sits on the path literal; IncludeNotInGlobalScopeError per nested include; stdgates.inc never read from disk; no panic. non-trivial = >=2 files read or a file present in >=2 directories; distinct by arrangement");
+    ctx.set_rule("file-system arrangements: 1-3 search directories, 1-4 include files with distinguishable contents (each copy declares a marker variable named after its file and directory), present in none/one/several directories, nested includes (chains up to 4 files), relative paths and absolute paths of one particular copy (existing or not), missing files, includes below global scope, decoy stdgates.inc, included files that begin or end with an annotation or pragma line; search list given / absent with QASM3_PATH set or unset; three entry points. oracle (differential): analysis of main+files equals the analysis of the textually inlined program (reference resolution rule): graph, symbols, diagnostic kinds; files read = reference resolution in order; diagnostics inside an included file are tagged with its canonical path; FileNotFound sits on the path literal; IncludeNotInGlobalScopeError per nested include; stdgates.inc never read from disk; no panic. non-trivial = >=2 files read or a file present in >=2 directories; distinct by arrangement");
     ctx.assume("include cycles are not generated (the code documents that it does not guard against them); cases that mutate QASM3_PATH are serialised under a process-wide lock; scratch directories live under harness/target/work and are removed");
     let n = ctx.pick(12_000u64, 300_000u64);
     run_arrangements(ctx, &["C18:"], "arrangement", n);
